@@ -24,6 +24,7 @@ const watchdog = 2 * time.Second
 type cfgT struct {
 	clean, early, validate, keepalive, callback bool
 	kaShort bool // KeepAlive "1s" instead of "1h": the pinger really fires (not part of the model's config)
+	x       *cfgX // option values beyond the model's flags (cfgsweep.go); nil: the harness defaults
 }
 
 func (c cfgT) text() string {
@@ -44,6 +45,7 @@ type step struct {
 	pkt   packet.Generic
 	name  string
 	n     int
+	fn    func(d *director) // op "do": an action of the option sweep (cfgsweep.go)
 }
 
 func (s step) text() string {
@@ -111,6 +113,11 @@ type scenario struct {
 	failAt  map[string]int
 	gates   []gateSpec
 	asyncOk bool
+	noModel bool                         // the events are outside the monitor's language: emitted as `obs` lines, direct clauses only
+	par     bool                         // waits on real time: run ahead of the sequential scenarios, concurrently
+	custom  func(x *xrun)                // a scenario that does not use the recording connection at all (real transport)
+	post    func(ev []obsEv) []string    // extra direct clauses over the finished log: returns `direct ...` lines
+	cbDo    string                       // what the application callback does with the client's API (cbapi/*)
 }
 
 func (sc *scenario) text() string {
@@ -145,6 +152,7 @@ type director struct {
 	proc  bool                  // Connect returned a future: a processor runs
 	stuck bool                  // an idle wait expired: the processor neither receives nor ended
 	autos sync.WaitGroup
+	logged *logSink // the client's Logger, when the scenario sets one
 }
 
 func (d *director) fail(format string, args ...interface{}) {
@@ -168,12 +176,20 @@ func (d *director) newClient(cfg cfgT) {
 			}
 			fail, cnt := rec.enter("cb")
 			rec.log("cb %s %s", hx.MsgText(msg), map[bool]string{true: "fail", false: "ok"}[fail])
+			if d.sc.cbDo != "" && !fail {
+				d.callbackAPI(cnt)
+			}
 			rec.leave("cb", cnt)
 			if fail {
 				return cbError(d.sc.cbErr)
 			}
 			return nil
 		}
+	}
+	d.logged = nil
+	if cfg.x != nil && cfg.x.logger {
+		d.logged = &logSink{}
+		d.cl.Logger = d.logged.add
 	}
 	d.incF = nil
 	d.incC = nil
@@ -277,10 +293,12 @@ func (d *director) call(s step) {
 					cfg.KeepAlive = "1s"
 				}
 			}
+			applyX(cfg, s.cfg.x)
 			var cf client.ConnectFuture
 			cf, err = cl.Connect(cfg)
 			if err == nil {
 				f = cf
+				judgeConnect(d.rec, d.conn, cfg, s.c)
 			}
 		case "pub":
 			d.rec.log("call %d pub %s", s.c, hx.MsgText(s.msg))
@@ -466,10 +484,14 @@ func (d *director) endIncarnation(last bool) {
 			d.fail("future of call=%d still pending after Close returned", c)
 		}
 	}
+	judgeLogger(d)
 	d.cl = nil
 }
 
 func runScenario(sc *scenario) (lines []string, direct []string, quiescent bool) {
+	if sc.custom != nil {
+		return runCustom(sc)
+	}
 	rec := newRec()
 	for k, v := range sc.failAt {
 		rec.failAt[k] = v
@@ -558,6 +580,8 @@ func runScenario(sc *scenario) (lines []string, direct []string, quiescent bool)
 			if p := d.conn.brokerRecv(time.Duration(s.n) * time.Millisecond); p != nil {
 				d.rec.directf("direct ackheld FAIL %s written while the application callback had not returned", hx.PktText(p))
 			}
+		case "do":
+			s.fn(d)
 		case "sleep":
 			// give other goroutines the chance to run into (or past) what they must not pass; orders nothing
 			time.Sleep(time.Duration(s.n) * time.Millisecond)
@@ -597,6 +621,11 @@ func runScenario(sc *scenario) (lines []string, direct []string, quiescent bool)
 	d.endIncarnation(true)
 	rec.mark("end")
 	directClauses(rec)
+	if sc.post != nil {
+		for _, l := range sc.post(rec.events()) {
+			rec.directf("%s", l)
+		}
+	}
 	rec.mu.Lock()
 	defer rec.mu.Unlock()
 	return rec.lines, rec.direct, !d.wd
@@ -694,6 +723,10 @@ func directClauses(rec *Rec) {
 				fail("direct delivery FAIL the message of (%s) was not passed to the callback next; the processor went on with (%s)", cur.expectFrom, strings.Join(ev, " "))
 			}
 			cur.expectCb = ""
+		} else if ev[0] == "cb" {
+			// AlwaysAnnounceOnPublish decides where a QoS 2 message is announced: at its PUBLISH or at its PUBREL, not both;
+			// QoS 0/1 messages are announced when they arrive and at no other time
+			fail("direct delivery FAIL (%s): a message is passed to the callback where the configured mode (AlwaysAnnounceOnPublish=%v) announces none", strings.Join(ev, " "), cur.cfg[1] == '1')
 		}
 		early := cur.cfg[1] == '1'
 		switch ev[0] {
@@ -724,6 +757,7 @@ func directClauses(rec *Rec) {
 			retFut   map[string]bool
 			subFails bool
 			gotRx    bool
+			pinged   bool
 		}
 		var regs []*region
 		var cr *region
@@ -761,6 +795,11 @@ func directClauses(rec *Rec) {
 				if ev[len(ev)-1] == "fail" || ev[len(ev)-1] == "err" {
 					cr.over = true
 				}
+				if ev[0] == "tx" && ev[1] == "pingreq" {
+					// a PINGREQ is out: the pinger may give the connection up (ErrClientMissingPong) at its next turn, and the
+					// teardown cancels the connect future before it closes the connection
+					cr.pinged = true
+				}
 			case "cb":
 				if ev[len(ev)-1] == "fail" {
 					cr.over = true
@@ -770,6 +809,9 @@ func directClauses(rec *Rec) {
 					cr.over = true // anything but a CONNACK as the first packet ends the client (ErrClientExpectedConnack)
 				}
 				cr.gotRx = true
+				if ev[1] == "pingresp" {
+					cr.pinged = false
+				}
 				if strings.HasPrefix(ev[1], "suback:") && strings.Contains(ev[1], "128") {
 					cr.over = true // a refused subscription cancels its future and closes the client
 				}
@@ -779,7 +821,7 @@ func directClauses(rec *Rec) {
 			case "fut":
 				if len(ev) >= 3 && ev[2] == "0" {
 					for _, rg := range regs {
-						if rg.retFut[ev[1]] && rg == cr && !rg.rested && !rg.over {
+						if rg.retFut[ev[1]] && rg == cr && !rg.rested && !rg.over && !rg.pinged {
 							fail("direct cancelled FAIL the future of call=%s is reported cancelled although its request went out and nothing has ended the connection (no Close, no failed Send/Receive, no Close/Disconnect call)", ev[1])
 						}
 					}
